@@ -58,8 +58,10 @@ struct Sess {
     Sess(vh::Out& o, vh::Rng& rng, long& emitted) : o(o), rng(rng), emitted(emitted) {}
 
     MemoryInterfaceUnit& miu() { return TeakraVerifAccess::miu(*t); }
+    u8* held = nullptr; // the raw pointer as a host takes it once, right after construction, and keeps it
     u8* raw(int via) {
         if (!own && via == 0) return buf.data();
+        if (own && via == 0 && held) return held;
         if (via == 2) return const_cast<u8*>(static_cast<const Teakra::Teakra&>(*t).GetDspMemory());
         return t->GetDspMemory();
     }
@@ -123,6 +125,7 @@ struct Sess {
         UserConfig cfg;
         cfg.dsp_memory = own ? nullptr : buf.data();
         t = std::make_unique<Teakra::Teakra>(cfg);
+        held = t->GetDspMemory();
         g_obs.acc.clear();
         const u8* c = static_cast<const Teakra::Teakra&>(*t).GetDspMemory();
         int same = own ? (t->GetDspMemory() != nullptr && t->GetDspMemory() == c)
@@ -150,7 +153,8 @@ struct Sess {
     void reset() {
         long long v = 0; const char* out;
         call([&] { t->Reset(); }, v, out);
-        o.begin(); o.str("e", "Reset"); tail(0, out);
+        // the raw view is the same storage before and after Reset (a pointer taken earlier stays THE raw memory pointer)
+        o.begin(); o.str("e", "Reset"); o.num("same", t->GetDspMemory() == held ? 1 : 0); tail(0, out);
     }
     void pr(u32 a) {
         long long v = 0; const char* out;
